@@ -95,13 +95,13 @@ def _helper_read_frame(lit: LineIterator) -> tuple:
         resnums.append(int(line[:5]))
         resnames.append(line[5:10].split()[-1])
         attypes.append(line[10:15].split()[-1])
-        words = line[20:].split()
-        pos[i, 0] = float(words[0])
-        pos[i, 1] = float(words[1])
-        pos[i, 2] = float(words[2])
-        vel[i, 0] = float(words[3])
-        vel[i, 1] = float(words[4])
-        vel[i, 2] = float(words[5])
+        # Positions and velocities are fixed-width fields starting at column 21. Their
+        # width (8 by default) is the distance between two decimal points (GROMACS rule).
+        dot = line.index(".", 20)
+        width = line.index(".", dot + 1) - dot
+        for j in range(3):
+            pos[i, j] = float(line[20 + j * width : 20 + (j + 1) * width])
+            vel[i, j] = float(line[20 + (j + 3) * width : 20 + (j + 4) * width])
     pos *= nanometer  # atom coordinates are in nanometers
     vel *= nanometer / picosecond
     # Read the cell line
